@@ -55,7 +55,8 @@ def parseCase (mode list peer route cache req oracle fresh : String) : Option Ca
   let m ← if mode == "block" then some Mode.block else if mode == "forbidden" then some Mode.forbidden else none
   let l ← parseList list
   let bs ← unhex req
-  let orc := oracleFn (parseOracle oracle)
+  let tab := mkOracleTab (parseOracle oracle)
+  let orc := tab.lookup
   let env : Env := ⟨strBytes peer, 0, orc⟩
   let q ← match C02.parseChunks env [bs] with
     | .ok (q, _) => some q
